@@ -12,6 +12,7 @@
 import PigeonVerif.Proofs.TermProof
 import PigeonVerif.Proofs.LRTerm
 import PigeonVerif.Proofs.LRIter
+import PigeonVerif.Proofs.LRIterExpr
 
 namespace PV
 namespace RT
@@ -163,6 +164,22 @@ theorem C08_direct_left_recursion_is_iteration_partial {E : Env} {A : Rule} {cid
   have h := leader_iter H f k s hi hnone
   rw [hrun] at h
   exact h
+
+/-- **... and the iteration is what the ORDINARY parser does with the iterative rule body.** Same hypotheses. Whatever the
+    leader `A <- A t1 / … / A tn / b1 / … / bm` returns from `s` — success or failure, and the end position — the parser
+    generated WITHOUT left-recursion support returns for the expression `(b1 / … / bm) ((t1) / … / (tn))*`
+    (`iterExpr`), from every state at the same position inside `A`. (The VALUE of the iterative body is the pair
+    `[b, [t…, t…, …]]`; that the left-recursive rule returns the left-nested `[[[b, t…], t…], …]` is the statement of
+    `C08_direct_left_recursion_is_iteration_partial`.) -/
+theorem C08_direct_left_recursion_matches_what_the_iterative_rule_matches_partial {E : Env} {A : Rule} {cid line col : Nat}
+    {ra : List (Nat × Nat × List Expr)} {bases : List Expr} {S rn : String → Bool} {own : Nat → Option String}
+    {node : Nat → Option Expr} {isPred : Nat → Bool} (H : DirectLR E A cid line col ra bases S rn own node isPred)
+    (f k : Nat) (s s' : PState) (v : Val) (ok : Bool) (hi : FInv E s) (hnone : getMemoized s (.rule A.name) = none)
+    (hrun : parseRuleLeader E (parseExpr E f) k A s = .done v ok s')
+    (t : PState) (hpt : t.pt = s.pt) (hhd : t.rstack.head? = some A) :
+    ∃ F w t', parseExpr (noLR E) F (iterExpr (ra.map (·.2.2)) bases) t = .done w ok t' ∧ t'.pt = s'.pt :=
+  iter_replay H.cfg.nobudget (C08_direct_left_recursion_is_iteration_partial H f k s s' v ok hi hnone hrun) t ⟨hpt, hhd⟩
+    (by rw [hpt]; exact hi.2.1)
 
 /-- what the ordinary parser does with an operand at a position is a function of the operand and the position -/
 theorem C08_operand_result_is_determined (E : Env) (A : Rule) (x : Expr) (p q q' : Savepoint) (ok ok' : Bool) (v v' : Val)
